@@ -83,6 +83,11 @@ def rand_config(rng):
                               "behavior": beh()}
     if rng.random() < 0.25:
         c["max_depth"] = rng.choice([1, 2, 3, 5, 10, 50])
+    if rng.random() < 0.7:
+        # the order of the builder calls (the model ignores it: every call sets its own setting)
+        order = [k for k in c if k != "mode"]
+        rng.shuffle(order)
+        c["order"] = order
     return c
 
 
